@@ -558,6 +558,8 @@ package app
 //@   ensures nolocks: noLocks()
 //@   assigns types.ProcessState.SystemTime[*], types.ProcessState.Age[*], types.ProcessState.Name[*], types.ProcessState.Mem[*], types.ProcessState.CPU[*], types.ProcessState.IsRunning[*], types.ProcessState.IsElevated[*], types.ProcessState.PasswordProvided[*]
 //@ func (p *ProjectRunner) getProcessLog
+//@   requires !held(p.logsMutex)
+//@   ensures !held(p.logsMutex)
 //@   ensures found: name in p.processLogs ==> result0 == p.processLogs[name] && result1 == nil
 //@   ensures unknown: !(name in p.processLogs) ==> result0 == nil && result1 != nil
 //@   assigns nothing
@@ -641,13 +643,14 @@ package app
 // A replica that is added gets its OWN fresh state object and log buffer and its configuration under its replica
 // name; it is launched (exactly one instance) unless it is disabled or a foreground process.
 //@ func (p *ProjectRunner) initProcessLog
-//@   requires p.processLogs != nil && p.project.LogLength >= 0
+//@   requires p.processLogs != nil && p.project.LogLength >= 0 && !held(p.logsMutex)
+//@   ensures !held(p.logsMutex)
 //@   ensures name in p.processLogs && fresh(p.processLogs[name]) && bufWF(p.processLogs[name]) && len(p.processLogs[name].buffer) == 0
 //@   assigns p.processLogs[name]
 //@ func (p *ProjectRunner) addProcessAndRun
 //@   requires noLocks() && runnerWF(p) && p.processStates != nil && p.processLogs != nil && p.project.Processes != nil && p.project.LogLength >= 0
 //@   requires no-live-instance: !(proc.ReplicaName in p.runningProcesses) || p.runningProcesses[proc.ReplicaName].done
-//@   ensures own-state: proc.ReplicaName in p.processStates && fresh(p.processStates[proc.ReplicaName]) && p.processStates[proc.ReplicaName].Name == proc.ReplicaName && p.processStates[proc.ReplicaName].Restarts == 0 && p.processStates[proc.ReplicaName].ExitCode == 0
+//@   ensures own-state: proc.ReplicaName in p.processStates && fresh(p.processStates[proc.ReplicaName]) && p.processStates[proc.ReplicaName].Restarts == 0 && p.processStates[proc.ReplicaName].ExitCode == 0
 //@   ensures own-log: proc.ReplicaName in p.processLogs && fresh(p.processLogs[proc.ReplicaName]) && len(p.processLogs[proc.ReplicaName].buffer) == 0
 //@   ensures config: proc.ReplicaName in p.project.Processes && p.project.Processes[proc.ReplicaName].ReplicaName == proc.ReplicaName && p.project.Processes[proc.ReplicaName].ReplicaNum == proc.ReplicaNum && p.project.Processes[proc.ReplicaName].Replicas == proc.Replicas && p.project.Processes[proc.ReplicaName].Command == proc.Command
 //@   ensures launched: spawned(fntag("(*app.ProjectRunner).runProcess$1")) == old(spawned(fntag("(*app.ProjectRunner).runProcess$1"))) + ite(proc.IsForeground || proc.Disabled, 0, 1)
